@@ -32,7 +32,9 @@ def chk_specs(draw, tier="quick"):
                 nspec=nspec, nghost=draw(st.integers(1, 3)), int_line=draw(st.booleans()),
                 coord_line=draw(st.sampled_from([True, True, False])),
                 layouts={s: (dict(cls="single", seed=0, nfiles=1) if big else draw(plotgen.layouts())) for s in SUBSETS},
-                seed=draw(st.integers(0, 9999)), big=big, ynorm=draw(st.integers(0, 2 ** 16)) % 3 == 0)
+                seed=draw(st.integers(0, 9999)), big=big, ynorm=draw(st.integers(0, 2 ** 16)) % 3 == 0,
+                # cells without any species (covered / embedded-boundary cells): every mass fraction exactly 0.0
+                yzero=draw(st.integers(0, 2 ** 16)) % 4 == 0)
 
 
 class Checkpoint:
@@ -78,6 +80,9 @@ class Checkpoint:
                     Y = arr[..., 4:4 + self.nspec]
                     Y /= Y.sum(axis=-1, keepdims=True)
                     Y *= (1.0 + r.uniform(-3e-6, 3e-6, size=shp[:3]))[..., np.newaxis]
+                if self.spec.get("yzero"):
+                    rz = np.random.Generator(np.random.PCG64([self.spec["seed"], 77, l] + [int(x) + 10 for x in glo]))
+                    arr[..., 4:4 + self.nspec][rz.random(shp[:3]) < 0.12] = 0.0
             self._cache[key] = arr
         return self._cache[key]
 
@@ -109,6 +114,8 @@ class Checkpoint:
             lab.append("state-file>1MB")
         if self.spec.get("ynorm"):
             lab.append("mass-fractions-sum-to-1+-3e-6")
+        if self.spec.get("yzero"):
+            lab.append("cells-without-species(sum=0)")
         return lab
 
 
